@@ -53,3 +53,9 @@ From Mpv Require Import GenStruct GenParams OrderHist Hist HistProofs.
 Theorem C11_exit_results_reset_with_the_workers : start_workers_resets = true.
 Proof. exact start_workers_resets_spec. Qed.
 Print Assumptions C11_exit_results_reset_with_the_workers.
+
+(* source fact (worker._run_init_func / _run_exit_func): worker_init is guarded by a done-flag that is set on BOTH branches (with and without worker_init_timeout): at most once per instance *)
+From Mpv Require Import GenAsync FailAux FailAuxProofs.
+Theorem C11_init_exit_phases_bracketed : init_exit_phases_bracketed = true.
+Proof. exact phases_spec. Qed.
+Print Assumptions C11_init_exit_phases_bracketed.
